@@ -8,6 +8,8 @@ PROPERTIES = {
     "C13": ["contracts.c13"],
     "C20": ["contracts.c20"],
     "C11": ["contracts.c11"],
+    "C08": ["contracts.c08"],
+    "C07": ["contracts.c07"],
     "C19": ["contracts.c19"],
     "C15": ["contracts.c19"],
     "C05": ["contracts.c05", "contracts.c16"],
